@@ -93,10 +93,11 @@ type Exec struct {
 	frozenPrefix map[string][]string
 	keyLog       map[string]bool // when set, heap keys read are recorded (dependency of an invariant)
 	ownWritten   map[string]bool // heap keys this function wrote on objects that existed before it ran
+	cutOrdinal   map[string]int
 	cut          bool     // past the "cutafter" point of the root contract
 	interfering  bool     // modelling interference at a lock acquisition (not a write of this function)
 	calleeHavoc  int      // >0 while the effects of a callee are being forgotten
-	stableCells  []string // write-once captured local variables (see writeOnceCaptured)
+	stableCells  []stableCell // write-once captured local variables (see writeOnceCaptured)
 	ownWrites  int         // writes of the function under verification to objects that existed before it ran
 	opts     *Options
 	initHeap map[string]string // initial heap terms (for old())
@@ -127,6 +128,11 @@ type Exec struct {
 	callOrdinal map[string]int
 	ghostVars map[string]Val // verdicts of the last crypto primitive calls (sig_ok, aead_ok)
 	curPos token.Pos
+}
+
+// stableCell: a write-once captured local and the path condition of its allocation.
+type stableCell struct {
+	ref, pc string
 }
 
 type storedRef struct {
@@ -328,8 +334,9 @@ func (ex *Exec) havocKeys(st *State, keys []string) {
 		oldArr, had := st.heap[k]
 		st.heap[k] = ex.fresh(k+"~h", sort)
 		if had && strings.HasPrefix(k, "C|") {
-			for _, ref := range ex.stableCells {
-				ex.emit("(assert (= (select " + st.heap[k] + " " + ref + ") (select " + oldArr + " " + ref + ")))")
+			for _, sc := range ex.stableCells {
+				// under the path on which the cell was allocated: allocations in exclusive branches may share a reference term
+				ex.emit("(assert (=> " + and(st.pc, sc.pc) + " (= (select " + st.heap[k] + " " + sc.ref + ") (select " + oldArr + " " + sc.ref + "))))")
 			}
 		}
 	}
